@@ -212,7 +212,7 @@ int main(int argc, char** argv) {
     std::uniform_real_distribution<double> U(0., 1.);
     // ---- boundary cases on the lattice: edges EXACTLY as long as a threshold are inside the band (split only if longer, collapse
     // only if shorter): octahedra with Pythagorean edge lengths, so that the squared lengths and thresholds are exact in doubles
-    for (int variant = 0; variant < 2; variant++) for (double unit : {std::ldexp(1.0, -17), 1.0}) for (int sw = 0; sw < 2; sw++) {
+    for (int variant = 0; variant < 2; variant++) for (double unit : {std::ldexp(1.0, -17), 1.0, std::ldexp(1.0, -30)}) for (int sw = 0; sw < 2; sw++) {
         const double ax[2][3] = {{3, 4, 3}, {4, 3, 4}};            // edges: 5, sqrt(18), 5   /   5, sqrt(32), 5
         shapes::tmesh m = shapes::octahedron();
         for (size_t i = 0; i < m.nn(); i++) for (int a = 0; a < 3; a++) m.pos[3 * i + a] *= ax[variant][a];
@@ -231,7 +231,7 @@ int main(int argc, char** argv) {
     // ---- refused swaps: a sliver whose longest edge A-B has its two opposite nodes C and D joined by an edge already (and no node
     // of valence three, so that the first refusal of swap_edge does not apply): swap_edge must leave the mesh as it is.  A thin
     // tetrahedron ABCD whose faces ACD and BCD are subdivided by a node each; every edge is inside the band.
-    for (double unit : {1e-5, 1.0, std::ldexp(1.0, -17)}) for (int v = 0; v < 4; v++) {
+    for (double unit : {1e-5, 1.0, std::ldexp(1.0, -17), 3e-9}) for (int v = 0; v < 4; v++) {
         const double w = (v & 1) ? 0.05 : 0.1, t = (v & 2) ? 0.03 : 0.08;
         shapes::tmesh m;
         const double P[6][3] = {{-1, 0, 0}, {1, 0, 0}, {0, w, t}, {0, -w, t}, {-1. / 3, 0, 2 * t / 3 + 0.05}, {1. / 3, 0, 2 * t / 3 + 0.05}};
@@ -253,7 +253,10 @@ int main(int argc, char** argv) {
         // every third cell is strongly stretched so that sliver triangles (quality score < 0.2) trigger real edge swaps
         const double sx = (cellno % 3 == 2) ? 6. + 6. * U(rng) : 1 + U(rng), sy = 1 + 0.5 * U(rng);
         for (size_t i = 0; i < m.nn(); i++) { m.pos[3 * i] *= sx; m.pos[3 * i + 1] *= sy; }
-        shapes::transform(m, 1e-5, 1e-4 * (U(rng) - 0.5), 1e-4 * (U(rng) - 0.5), 1e-4 * (U(rng) - 0.5));
+        // micrometres, or (every fifth cell) nanometres: triangle areas of 1e-17 and below, where an absolute tolerance on an area, a
+        // cross product or a squared length would misjudge every triangle
+        const double sc = (cellno % 3 == 1) ? 3e-9 : 1e-5;
+        shapes::transform(m, sc, 10 * sc * (U(rng) - 0.5), 10 * sc * (U(rng) - 0.5), 10 * sc * (U(rng) - 0.5));
         cell_ptr c = make_cell(m);
         cellno++;
         g_degenerate = false;
@@ -284,6 +287,8 @@ int main(int argc, char** argv) {
             double lmin, lmax;
             if (p % 3 == 2) { lmin = lens.front() * 0.9; lmax = lens.back() * 1.1; if (lmax <= lmin) lmax = lmin * 2; }
             else { lmin = lens[(size_t)(U(rng) * 0.35 * lens.size())]; lmax = lmin * (1.3 + 1.7 * U(rng)); }
+            // the first pass on a nanometre cell splits about half of its edges (the random band above may ask for collapses only)
+            if (sc < 1e-6 && p == 0) { lmin = 0.5 * lens.front(); lmax = lens[lens.size() / 2]; if (lmax <= lmin) lmax = 2 * lmin; }
             const bool swaps = (rng() % 4) != 0;
             g_swaps_enabled = swaps;
             local_mesh_refiner lmr(lmin, lmax, swaps);
